@@ -116,7 +116,12 @@ class C05Oracle(BaseOracle):
         else:
             self.probe("explained_data_unobservable")
             return None
-        outs = [w.model_fn(x) for x in xs]
+        if w.model_fn.family == "riverlabel":       # stateful real RiverWrapper: only its recorded outputs are usable
+            if not mbs or len(mbs[0][2]) != len(xs):
+                return None
+            outs = mbs[0][2]
+        else:
+            outs = [w.model_fn(x) for x in xs]
         N = len(xs)
         if N == 0:
             return None
